@@ -33,6 +33,11 @@ Definition B_PROPFUND : N := 8.   (* propFunds_i_<proposal>_<addr>        propos
 Definition B_DELEGACT : N := 9.   (* deleg_a_<addr>  a CLAIM on the delegation pool's balance: part of
                                      the delegator's holdings (C03), not of the chain total (C02)   *)
 
+(* side records (never in a total or in holdings; monitored): validator reward claims on the reward pool's balance *)
+Definition B_VREWBAL : N := 10.   (* rwcum_balance_<validator>    matured reward claim   *)
+Definition B_VREWWD : N := 11.    (* rwcum_withdrawn_<validator>  withdrawn so far       *)
+Definition B_VREWPEND : N := 12.  (* rwz_<validator>_<interval>   interval rewards       *)
+
 Definition CUR_OLT : N := 0.
 
 Notation ledger := (gmap key Z) (only parsing).
